@@ -7,6 +7,7 @@
 
 From Coq Require Import ZArith QArith List Bool Floats.
 From KV Require Import Scalar Geom Rect Affine Curves ShapeTypes.
+From KV Require AffineOps.  (* for [AffineOps.aff_svd_det]: Affine::svd as repaired by commit 7389fc0 (minor radius = |det| / major) *)
 Import ListNotations.
 
 Set Implicit Arguments.
@@ -128,8 +129,8 @@ Definition ellipse_new (center : Point T) (radii : Vec2 T) (x_rotation : T) : El
                      (aff_scale_non_uniform (fabs (vx radii)) (fabs (vy radii)))).
 Definition ellipse_from_affine (a : Affine T) : Ellipse T := mkEllipse a.
 Definition ellipse_center (e : Ellipse T) : Point T := to_point (aff_translation (el_inner e)).
-Definition ellipse_radii_and_rotation (e : Ellipse T) : Vec2 T * T := aff_svd (el_inner e).
-Definition ellipse_radii (e : Ellipse T) : Vec2 T := fst (aff_svd (el_inner e)).
+Definition ellipse_radii_and_rotation (e : Ellipse T) : Vec2 T * T := AffineOps.aff_svd_det (el_inner e).
+Definition ellipse_radii (e : Ellipse T) : Vec2 T := fst (AffineOps.aff_svd_det (el_inner e)).
 
 Definition ellipse_area (e : Ellipse T) : T :=
   let r := ellipse_radii e in fpi * vx r * vy r.
